@@ -61,7 +61,7 @@ def gen_case(rnd):
     rules = []
     for i in range(nr):
         dets = gen_detections(rnd, "r", rnd.randint(1, 3))
-        d = {"title": f"rule{i}", "name": f"rname{i}", "id": str(uuid.UUID(int=0x2000 + i)), "logsource": copy.deepcopy(rnd.choice(LOGSOURCES)),
+        d = {"title": f"rule{i}", "name": f"rname{i}", "id": str(uuid.UUID(int=0xabcdef00 + i)), "logsource": copy.deepcopy(rnd.choice(LOGSOURCES)),
              "detection": {**dets, "condition": gen_cond(rnd, list(dets), False)}}
         if rnd.random() < 0.15:
             d["detection"]["condition"] = [d["detection"]["condition"], gen_cond(rnd, list(dets), False)]
@@ -76,7 +76,13 @@ def gen_case(rnd):
         if how < 0.25: rl = "any"
         elif how < 0.35: rl = []
         elif how < 0.6: rl = [rnd.choice(rules)["name"]]
-        elif how < 0.8: rl = [r["id"] for r in rnd.sample([r for r in rules if "id" in r], 1)]
+        elif how < 0.8:
+            rl = [r["id"] for r in rnd.sample([r for r in rules if "id" in r], 1)]
+            sp = rnd.random()      # a UUID names the same rule in every spelling
+            if sp < 0.15: rl = [x.upper() for x in rl]
+            elif sp < 0.25: rl = ["{" + x + "}" for x in rl]
+            elif sp < 0.35: rl = ["urn:uuid:" + x for x in rl]
+            elif sp < 0.4: rl = [x.replace("-", "") for x in rl]
         elif how < 0.9: rl = "rname0"
         else: rl = ["nomatch", str(uuid.UUID(int=0x9999))]
         filters.append({"title": f"filter{k}", "logsource": copy.deepcopy(rnd.choice(LOGSOURCES)),
@@ -120,6 +126,14 @@ def _d10c(f):
     return any(n.startswith("_") for n in names) and re.search(r"of\s+(them|\*)", fl["condition"]) is not None
 
 
+def canon_ref(x):
+    """a rule reference that is a UUID in any spelling denotes the rule with that identifier"""
+    try:
+        return str(uuid.UUID(x))
+    except (ValueError, AttributeError, TypeError):
+        return x
+
+
 def ls_json(ls):
     return {k: (cps(ls[k]) if ls.get(k) is not None else None) for k in ("category", "product", "service")}
 
@@ -133,7 +147,7 @@ def make_request(case, impl, gen):
         if rl == [] or (isinstance(rl, str) and rl.lower() == "any"):
             fr = "any"
         else:
-            fr = [cps(x) for x in (rl if isinstance(rl, list) else [rl])]
+            fr = [cps(canon_ref(x)) for x in (rl if isinstance(rl, list) else [rl])]
         filters.append({"flog": ls_json(f["logsource"]), "frules": fr,
                         "dets": [{"name": cps(n), "det": det_json(d)} for n, d in dets.items()], "cond": cps(fl["condition"])})
     rules = []
